@@ -201,7 +201,7 @@ def distribution(cases, obs):
                     e = 0
     return d
 
-TECHNIQUE = 'Coq theorems over an executable collector/user pipe model (bounded deques) + delivery oracle proved on the model and evaluated on the real DataUser/DataCollector'
+TECHNIQUE = 'Coq theorems over an executable collector/user pipe model (bounded deques); generic theorem that every interleaving of lock-protected operations is serial + delivery oracle proved on the model and evaluated on the real DataUser/DataCollector, atomically and under line-level two-thread interleavings'
 LEVEL_TEXT = 'Machine-checked proof that for every queue size (None, 0, n) and every sequence of collect/update/get_data/count_data_added_since/save_state, each hand-over delivers exactly the last queue-size samples collected since the previous hand-over, once and in order, timestamps stay paired, and counts equal the number of newer timestamps within the last queue-size deliveries (take-while = filter for sorted timestamps); exclusive acquisition of collectors. Tied to /repo by running the real classes behind a recording buffer with a scripted clock. Interleavings: see level_note.'
-LEVEL_NOTE = 'Trusted: Coq kernel + vm_compute; coq/Model/DataPipe.v; recording buffer and scripted pamiq_core.time.time. This check covers atomic operations; the interleaving quantifier (source-line preemption of collect vs hand-over) is covered by the lock-serialisation theorem and the line-level exploration once the sim harness part of C07 is registered (DESIGN.md §4 C07).'
+LEVEL_NOTE = 'Trusted: Coq kernel + vm_compute; coq/Model/DataPipe.v; recording buffer and scripted pamiq_core.time.time; harness/sim/sched.py for the line-level runs. The interleaving quantifier (source-line preemption of collect vs hand-over) is carried by the generic lock-serialisation theorem (Proofs/LockSerial.v: every interleaving of lock-protected operations is the serial run in acquisition order) together with the line-level runs of the real code, which check that the shared queue is touched only under the lock and that the interleaved result equals the atomic model in acquisition order.'
 DESIGN_REF = 'DESIGN.md §4 C07'
